@@ -75,10 +75,30 @@ func c05Val(a string, id int) string {
 	return "v" + strconv.Itoa(id)
 }
 
+// tagCount: the number of tags of the write (0 = none). The tag attribute's value in the model IS this
+// number: x-amz-tagging-count of a GET identifies the tag set up to its size, and the writes of one
+// schedule get different sizes.
+func (w c05Write) tagCount() int {
+	if !w.has("tags") {
+		return 0
+	}
+	return 1 + w.ID%3
+}
+
+func (w c05Write) tagging() string {
+	var kv []string
+	for i := 0; i < w.tagCount(); i++ {
+		kv = append(kv, fmt.Sprintf("t%d=v%d", i, w.ID))
+	}
+	return strings.Join(kv, "&")
+}
+
 func (w c05Write) headers() []gw.Header {
 	var h []gw.Header
 	for _, a := range w.Attrs {
-		if strings.HasPrefix(a, "m") {
+		if a == "tags" {
+			h = append(h, gw.Header{K: "x-amz-tagging", V: w.tagging()})
+		} else if strings.HasPrefix(a, "m") {
 			h = append(h, gw.Header{K: "x-amz-meta-" + a, V: c05Val(a, w.ID)})
 		} else {
 			h = append(h, gw.Header{K: c05HdrName[a], V: c05Val(a, w.ID)})
@@ -88,8 +108,8 @@ func (w c05Write) headers() []gw.Header {
 }
 
 // spec renders the write for the driver, attributes in the order the code sets them through the fd:
-// PutObject (and CopyObject): user metadata, checksums, etag, content headers; CompleteMultipartUpload:
-// content headers, user metadata, etag.
+// PutObject (and CopyObject): user metadata, checksums, etag, content headers, tags; CompleteMultipartUpload:
+// content headers, user metadata, tags, etag.
 func (w c05Write) spec(kind string) string {
 	id := strconv.Itoa(w.ID)
 	var metas, hdrs []string
@@ -98,6 +118,10 @@ func (w c05Write) spec(kind string) string {
 			metas = append(metas, a+"="+id)
 		}
 	}
+	var tags []string
+	if w.has("tags") {
+		tags = []string{"tags=" + strconv.Itoa(w.tagCount())}
+	}
 	for _, a := range c05HdrOrder {
 		if w.has(a) {
 			hdrs = append(hdrs, a+"="+id)
@@ -105,9 +129,9 @@ func (w c05Write) spec(kind string) string {
 	}
 	var all []string
 	if kind == "M" {
-		all = append(append(hdrs, metas...), "etag="+id)
+		all = append(append(append(hdrs, metas...), tags...), "etag="+id)
 	} else {
-		all = append(append(metas, "checksums="+id, "etag="+id), hdrs...)
+		all = append(append(append(metas, "checksums="+id, "etag="+id), hdrs...), tags...)
 	}
 	return fmt.Sprintf("%d.%d.%s", w.ID, w.Len, strings.Join(all, "+"))
 }
@@ -280,6 +304,16 @@ func (p *c05Proj) project(s *gw.Sys) (name, class string) {
 		if a := attrName(arg(0)); a != "" {
 			return "setattr." + a, class
 		}
+	case "setxattr", "lsetxattr", "removexattr", "lremovexattr":
+		// an attribute stored (removed) BY NAME on the object: never a step of the model — every
+		// attribute of an object is written through the descriptor before the publication
+		if arg(0) == path {
+			a := attrName(arg(1))
+			if a == "" {
+				a = strings.TrimPrefix(arg(1), "user.")
+			}
+			return s.Name + "-by-name." + a, class
+		}
 	case "unlinkat":
 		if arg(0) == path {
 			if strings.Contains(s.Args, "AT_REMOVEDIR") {
@@ -391,6 +425,16 @@ func (r *c05Rig) do(g *gw.Gateway, q gw.Req) gw.Resp {
 	return gw.Do(g.Addr(), q)
 }
 
+func c05NoTagging(h []gw.Header) []gw.Header {
+	var o []gw.Header
+	for _, x := range h {
+		if x.K != "x-amz-tagging" {
+			o = append(o, x)
+		}
+	}
+	return o
+}
+
 var reUploadID = regexp.MustCompile(`<UploadId>([^<]+)</UploadId>`)
 
 // request builds the HTTP request of rq on `key`, doing its preparation (copy source, multipart
@@ -402,10 +446,17 @@ func (r *c05Rig) request(rq c05Req, key string) (gw.Req, error) {
 		return gw.Req{Method: "PUT", Path: path, Body: rq.W.body(), Headers: rq.W.headers()}, nil
 	case "C":
 		src := fmt.Sprintf("src-%s-%d", key, rq.W.ID)
-		if rsp := r.do(r.free, gw.Req{Method: "PUT", Path: "/" + r.bucket + "/" + src, Body: rq.W.body(), Headers: rq.W.headers()}); rsp.Status != 200 {
+		if rsp := r.do(r.free, gw.Req{Method: "PUT", Path: "/" + r.bucket + "/" + src, Body: rq.W.body(), Headers: c05NoTagging(rq.W.headers())}); rsp.Status != 200 {
 			return gw.Req{}, fmt.Errorf("put copy source: %d %s %v", rsp.Status, rsp.Body, rsp.Err)
 		}
-		return gw.Req{Method: "PUT", Path: path, Headers: []gw.Header{{K: "x-amz-copy-source", V: r.bucket + "/" + src}}}, nil
+		// the source carries no tags: with the (default) COPY tagging directive CopyObject stores the
+		// source's tags BY NAME after the publication (probed separately: c05CopyTagsProbe); the
+		// destination's tags are given with the REPLACE directive and travel through PutObject
+		hs := []gw.Header{{K: "x-amz-copy-source", V: r.bucket + "/" + src}}
+		if rq.W.has("tags") {
+			hs = append(hs, gw.Header{K: "x-amz-tagging-directive", V: "REPLACE"}, gw.Header{K: "x-amz-tagging", V: rq.W.tagging()})
+		}
+		return gw.Req{Method: "PUT", Path: path, Headers: hs}, nil
 	case "M":
 		rsp := r.do(r.free, gw.Req{Method: "POST", Path: path, Query: "uploads=", Headers: rq.W.headers()})
 		m := reUploadID.FindSubmatch(rsp.Body)
@@ -510,17 +561,23 @@ func c05View(rq c05Req, rsp gw.Resp, writes []c05Write, kinds map[int]string) st
 		}
 		return strings.Join(l, "+")
 	}
-	return fmt.Sprintf("read(clen=%s,body=%s,short=%s,etag=%s,meta=%s,hdrs=%s)", clen, body, short, etag, z(metas), z(hdrs))
+	tags := "-"
+	if v := rsp.Headers.Get("X-Amz-Tagging-Count"); v != "" && rq.Kind == "G" {
+		tags = v
+	}
+	return fmt.Sprintf("read(clen=%s,body=%s,short=%s,etag=%s,meta=%s,hdrs=%s,tags=%s)", clen, body, short, etag, z(metas), z(hdrs), tags)
 }
 
 // ------------------------------------------------------------------------------------ steered execution
 
 type c05Obs struct {
-	Steps []string // rid:name:class:fin as observed
-	Resp  []string
-	Err   string // harness-level problem (time-out, preparation failed)
-	Div   string // first divergence from the model's step list
-	Diag  string // strace log tails when Err/Div is set
+	Steps   []string // rid:name:class:fin as observed
+	Resp    []string
+	Err     string // harness-level problem (time-out, preparation failed)
+	Div     string // first divergence from the model's step list
+	Diag    string // strace log tails when Err/Div is set
+	Final   string // GET of the key after the schedule (through the free-running gateway)
+	Tagging string // number of tags GetObjectTagging answers after the schedule ("-" = none / no key)
 }
 
 // runCase replays the schedule on the rig's processes. `want` is the model's step list (rid:name:class:fin).
@@ -690,6 +747,16 @@ func (r *c05Rig) runCase(c c05Case, want []string) c05Obs {
 		}
 		obs.Resp = append(obs.Resp, c05View(rq, resps[i], c.writes(), kinds))
 	}
+	// the state the schedule leaves behind: a GET and a GetObjectTagging of the key
+	if want != nil && obs.Err == "" && obs.Div == "" {
+		path := "/" + r.bucket + "/" + key
+		obs.Final = c05View(c05Req{Kind: "G"}, r.do(r.free, gw.Req{Method: "GET", Path: path}), c.writes(), kinds)
+		tg := r.do(r.free, gw.Req{Method: "GET", Path: path, Query: "tagging="})
+		obs.Tagging = "-"
+		if n := bytes.Count(tg.Body, []byte("<Tag>")); tg.Status == 200 && n > 0 {
+			obs.Tagging = strconv.Itoa(n)
+		}
+	}
 	return obs
 }
 
@@ -705,6 +772,7 @@ func c05At(l []string, i int) string {
 type c05Model struct {
 	Steps []string
 	Resp  []string
+	Final string // what a GET of the key answers after the schedule
 }
 
 func c05ParseRun(line string) (c05Model, error) {
@@ -712,7 +780,8 @@ func c05ParseRun(line string) (c05Model, error) {
 	if len(parts) != 3 || !strings.HasPrefix(parts[0], "steps") || !strings.HasPrefix(parts[1], "resp ") {
 		return c05Model{}, fmt.Errorf("driver answer: %q", line)
 	}
-	return c05Model{Steps: strings.Fields(strings.TrimPrefix(parts[0], "steps")), Resp: strings.Fields(strings.TrimPrefix(parts[1], "resp "))}, nil
+	return c05Model{Steps: strings.Fields(strings.TrimPrefix(parts[0], "steps")), Resp: strings.Fields(strings.TrimPrefix(parts[1], "resp ")),
+		Final: strings.TrimSpace(strings.TrimPrefix(parts[2], "final"))}, nil
 }
 
 func (r *c05Rig) runLine(c c05Case) string {
@@ -806,6 +875,7 @@ type c05Judged struct {
 	model   c05Model
 	obs     c05Obs
 	verdict []string // per request: single-write verdict of the IMPLEMENTATION's answer ("" for non-reads)
+	final   string   // single-write verdict of the GET after the schedule
 }
 
 func c05Input(c c05Case) map[string]interface{} {
@@ -877,6 +947,21 @@ func c05Report(res *lib.Result, a lib.Args, j c05Judged, linFull, linNoMissing s
 			res.Fail(lib.Failure{Kind: "property", Signature: "conc:linearizability:unexplained:" + c.Pair, What: "the answers are not explained by any order that respects real time (Spec.Register.linearizableB)", Input: in, Impl: impl, Model: model})
 		}
 	}
+	// the state left behind
+	if j.obs.Final != "" {
+		switch {
+		case strings.HasPrefix(j.final, "bad:"):
+			res.Fail(lib.Failure{Kind: "property", Signature: "conc:final-state:" + strings.SplitN(strings.TrimPrefix(j.final, "bad:"), "+", 2)[0],
+				What: "after the schedule the key holds parts of different writes for good (" + j.final + "): GET answers " + j.obs.Final, Input: in, Impl: j.obs.Final, Model: j.model.Final})
+		case j.obs.Final != j.model.Final:
+			res.Fail(lib.Failure{Kind: "correspondence", Signature: "final-state:" + c.Pair + ":" + c.Strat, What: "the object the schedule leaves behind differs from Model.Conc's", Input: in, Impl: j.obs.Final, Model: j.model.Final})
+		}
+		// GetObjectTagging must agree with the tag set of the GET answer
+		if m := regexp.MustCompile(`tags=([^,)]*)`).FindStringSubmatch(j.model.Final); m != nil && j.obs.Tagging != m[1] && strings.HasPrefix(j.model.Final, "read(") {
+			res.Fail(lib.Failure{Kind: "property", Signature: "conc:final-state:tagging-of-other-write", What: "GetObjectTagging after the schedule answers " + j.obs.Tagging + " tags, the object the key holds has " + m[1],
+				Input: in, Impl: "tagging=" + j.obs.Tagging + " " + j.obs.Final, Model: j.model.Final})
+		}
+	}
 	if !c05SameAnswers(j.model.Resp, j.obs.Resp) {
 		res.Fail(lib.Failure{Kind: "correspondence", Signature: "answers:" + c.Pair + ":" + c.Strat, What: "the code's answers differ from Model.Conc's for this schedule", Input: in, Impl: impl, Model: model})
 	}
@@ -892,6 +977,9 @@ func c05Payloads(r *lib.Rand, base int) (c05Write, c05Write, c05Write) {
 		{},
 		{"m0", "ctype", "cenc", "cdisp", "clang", "cache", "expires"},
 		{"ctype"},
+		{"m0", "tags"},
+		{"tags"},
+		{"m0", "ctype", "tags"},
 	}
 	same := 0
 	if r.Chance(60) { // equal lengths: a torn read is then a complete HTTP answer (no length mismatch)
@@ -908,23 +996,29 @@ func c05Payloads(r *lib.Rand, base int) (c05Write, c05Write, c05Write) {
 }
 
 type c05PairDef struct {
-	name  string
-	kinds []string
-	inits []bool // initial states to try: true = the key exists
+	name   string
+	kinds  []string
+	inits  []bool // initial states to try: true = the key exists
+	tagged []bool // per request: the write carries a tag set (nil = as the payload shape says)
 }
 
 var c05Pairs = []c05PairDef{
-	{"PUT,PUT", []string{"P", "P"}, []bool{true, false}},
-	{"PUT,GET", []string{"P", "G"}, []bool{true, false}},
-	{"PUT,HEAD", []string{"P", "H"}, []bool{true, false}},
-	{"PUT,DELETE", []string{"P", "D"}, []bool{true, false}},
-	{"DELETE,GET", []string{"D", "G"}, []bool{true}},
-	{"MPU,GET", []string{"M", "G"}, []bool{true, false}},
-	{"COPY,GET", []string{"C", "G"}, []bool{true}},
-	{"DELETE,DELETE", []string{"D", "D"}, []bool{true}},
-	{"COPY,DELETE", []string{"C", "D"}, []bool{true}},
-	{"PUT,PUT,GET", []string{"P", "P", "G"}, []bool{true}},
-	{"PUT,DELETE,GET", []string{"P", "D", "G"}, []bool{true}},
+	{"PUT,PUT", []string{"P", "P"}, []bool{true, false}, nil},
+	{"PUT,GET", []string{"P", "G"}, []bool{true, false}, nil},
+	{"PUT,HEAD", []string{"P", "H"}, []bool{true, false}, nil},
+	{"PUT,DELETE", []string{"P", "D"}, []bool{true, false}, nil},
+	{"DELETE,GET", []string{"D", "G"}, []bool{true}, nil},
+	{"MPU,GET", []string{"M", "G"}, []bool{true, false}, nil},
+	{"COPY,GET", []string{"C", "G"}, []bool{true}, nil},
+	{"DELETE,DELETE", []string{"D", "D"}, []bool{true}, nil},
+	{"COPY,DELETE", []string{"C", "D"}, []bool{true}, nil},
+	// uploads with a tag set against a write without / a reader: the tags must be published with the object
+	{"MPU+tags,PUT", []string{"M", "P"}, []bool{true}, []bool{true, false}},
+	{"MPU+tags,GET", []string{"M", "G"}, []bool{true}, []bool{true, false}},
+	{"PUT+tags,PUT", []string{"P", "P"}, []bool{true}, []bool{true, false}},
+	{"COPY+tags,PUT", []string{"C", "P"}, []bool{true}, []bool{true, false}},
+	{"PUT,PUT,GET", []string{"P", "P", "G"}, []bool{true}, nil},
+	{"PUT,DELETE,GET", []string{"P", "D", "G"}, []bool{true}, nil},
 }
 
 // c05Corpus: the witnesses of the FORMER findings (fixed in the repo: 4399f3e, 109ae9c, 4e82e48), run first;
